@@ -19,7 +19,7 @@ from .planlang import DS, M, SEQ
 
 DEVICES = {
     "dets": {"d1": {"trigger_delay": 0.05}, "d2": {"keys": ["d2a", "d2b"], "salt": 7.0}, "d3": {"salt": 3.0, "cfg": {"gain": 1}}, "d4": {"salt": 4.0, "stage_status": 0.05}},
-    "motors": {"m1": {"delay": 0.1}, "m2": {"pos": 1.0}},
+    "motors": {"m1": {"delay": 0.1}, "m2": {"pos": 1.0, "async_stop": True}},
     "sigs": {"s1": {"value": 1.0}, "s2": {"value": 5.0}},
     "flyers": {"f1": {"n_events": 2}, "f2": {"n_events": 1, "pages": True}},
 }
